@@ -675,7 +675,9 @@ class Engine(object):
             CLOCK.advance_to(due)
 
     def do_flush(self):
-        waiting = [m for m in self.msgs.values() if m.acked and m.known and not m.removed and m.due is not None]
+        busy = set(g.tag for g in self.pending)
+        waiting = [m for m in self.msgs.values() if m.acked and m.known and not m.removed and m.due is not None
+                   and not m.open_attempts and m.tag not in busy]     # in-flight messages are not waiting: flush does not concern them
         for m in waiting:
             m.flushed = True
         t = gevent.spawn(self.queue.flush)
